@@ -7,6 +7,7 @@ call), macros bound to evaluated references, scope-like macro names, constants
 with shared dotted suffixes, and finalize as an operation.  A model holding the
 latest binding of each macro is the oracle at every consumer call.
 """
+import collections
 import copy
 
 from ginsim import cfgtext, probes, shrink, vfs, world
@@ -133,6 +134,13 @@ def gen(rng, tier):
                   'scope': rng.choice(['', '', 's1', 'zz'])})
     elif r < 0.9:
       ops.append({'op': 'finalize', 'scope': rng.choice(['', '', '', 'zz'])})
+    elif r < 0.905:
+      # a value built in Python: a container that is no list / tuple / dict,
+      # holding a %name reference
+      ops.append({'op': 'bind_container', 'scope': rng.choice(['', 's1']),
+                  'sel': 'cons%d' % rng.randint(0, 1),
+                  'param': rng.choice(['x', 'y']),
+                  'name': rng.choice(MACROS[:3])})
     elif r < 0.93:
       ops.append({'op': 'clear', 'constants': rng.random() < 0.6})
       if abbrevs and rng.random() < 0.7:
@@ -254,7 +262,7 @@ def run(case):
       out.append(vs['macro'])
     if 'ref' in vs and vs['ref'][1] == 'macro':
       out.append(vs['ref'][0])   # explicit @NAME/macro() spelling
-    for key in ('list', 'tuple'):
+    for key in ('list', 'tuple', 'deque'):
       for x in vs.get(key, []):
         names_in(x, out)
     for k, x in vs.get('dict', []):
@@ -277,7 +285,7 @@ def run(case):
           if len(cands) == 1:
             node['const'] = cands[0]
         return True
-      for key in ('list', 'tuple'):
+      for key in ('list', 'tuple', 'deque'):
         for x in node.get(key, []):
           if not walk(x):
             return False
@@ -323,6 +331,8 @@ def run(case):
       return evaluate(macros[n], depth + 1)
     if 'list' in vs:
       return ('list', [evaluate(x, depth) for x in vs['list']])
+    if 'deque' in vs:
+      return ('deque', [evaluate(x, depth) for x in vs['deque']])
     if 'tuple' in vs:
       return ('tuple', [evaluate(x, depth) for x in vs['tuple']])
     return ('dict', [(k['lit'], evaluate(x, depth)) for k, x in vs['dict']])
@@ -330,7 +340,7 @@ def run(case):
   def has(ev, kinds):
     if ev[0] in kinds:
       return True
-    if ev[0] in ('list', 'tuple'):
+    if ev[0] in ('list', 'tuple', 'deque'):
       return any(has(x, kinds) for x in ev[1])
     if ev[0] == 'dict':
       return any(has(x, kinds) for _, x in ev[1])
@@ -339,7 +349,7 @@ def run(case):
   def count_fresh(ev, out):
     if ev[0] == 'fresh':
       out[ev[1]] = out.get(ev[1], 0) + 1
-    elif ev[0] in ('list', 'tuple'):
+    elif ev[0] in ('list', 'tuple', 'deque'):
       for x in ev[1]:
         count_fresh(x, out)
     elif ev[0] == 'dict':
@@ -362,8 +372,9 @@ def run(case):
         v('C05.constant_identity', [],
           '%s: received %r, expected the constant object %r itself' %
           (path, got, ev[1]))
-    elif k in ('list', 'tuple'):
-      if type(got) is not (list if k == 'list' else tuple) or \
+    elif k in ('list', 'tuple', 'deque'):
+      want_type = {'list': list, 'tuple': tuple, 'deque': collections.deque}[k]
+      if type(got) is not want_type or \
           len(got) != len(ev[1]):
         v('C05.macro_value', ['container'], '%s: received %r' % (path, got))
         return
@@ -453,6 +464,24 @@ def run(case):
       if op['constants']:
         const_objs.clear()
       log.add('clear', op['constants'])
+    elif k == 'bind_container':
+      if locked[0]:
+        continue
+      val = annotate({'deque': [{'macro': op['name']}]})
+      if val is None:
+        continue
+      try:
+        ref = gin.config.parse_value('%' + op['name'])
+        gin.bind_parameter((op['scope'], op['sel'], op['param']),
+                           collections.deque([ref]))
+        store.setdefault((op['scope'], op['sel']), {})[op['param']] = val
+        if op['name'] not in macros:
+          used_before_def.add(op['name'])
+        stats['container_binds'] = stats.get('container_binds', 0) + 1
+      except Exception as e:  # pylint: disable=broad-except
+        v('C05.parse_succeeds', ['bind_container', type(e).__name__],
+          'binding a deque holding %%%s raised %r' % (op['name'], e))
+      log.add('bind_container', op['sel'], op['param'], op['name'])
     elif k == 'unevaluated_use':
       if locked[0]:
         continue
